@@ -235,7 +235,9 @@ class World:
         P = self.mods['pool']
         amsg = self.mods['amsg']
         wp = self.mods['worker_proc']
-        P._pickle_memoized.cache_clear()
+        memo = getattr(P, '_pickle_memoized', None)
+        if memo is not None and hasattr(memo, 'cache_clear'):
+            memo.cache_clear()      # process-global cache: must not leak between runs
 
         # seams ---------------------------------------------------------------
         self.pool_pickle = self.ci.PickleProxy('pool', self.pickle_hook)
@@ -354,7 +356,7 @@ class World:
         c, t, loop = self.cfg, self.tape, self.loop
         await self.pool.start()
         self.pool_started = True
-        self.ev('pool_started', len(self.pool._workers))
+        self.ev('pool_started', len(getattr(self.pool, '_workers', ())))
         for i in range(c['nclients']):
             self.client_tasks.append(loop.harness_task(self.client(i)))
         horizon = c['nreq'] * (c['think'] + c['svc'] + 2)
